@@ -56,3 +56,20 @@ pub fn dkg_post_map(sum_c0: ProjectivePoint, share: Scalar) -> (ProjectivePoint,
     let s = if y_is_odd(&sum_c0) { -share } else { share };
     (even(sum_c0) + ProjectivePoint::GENERATOR * t, s + t)
 }
+
+/// A BIP-340 signature made by the harness itself from a known secret key and a known nonce, and its MIRROR: the same x(R) with
+/// the response that belongs to -R. The first is valid; the second is not (BIP-340 demands an even-Y R), although
+/// x(z'G - eP) = x(R).
+pub fn bip340_sign_pair(d0: Scalar, k0: Scalar, msg: &[u8]) -> ([u8; 64], [u8; 64]) {
+    let p = ProjectivePoint::GENERATOR * d0;
+    let d = if y_is_odd(&p) { -d0 } else { d0 };
+    let r = ProjectivePoint::GENERATOR * k0;
+    let k = if y_is_odd(&r) { -k0 } else { k0 };
+    let e = <Scalar as Reduce<U256>>::reduce(&U256::from_be_slice(&tagged_hash("BIP0340/challenge", &[&x_bytes(&r), &x_bytes(&p), msg])));
+    let mut good = [0u8; 64];
+    good[..32].copy_from_slice(&x_bytes(&r));
+    good[32..].copy_from_slice(&(k + e * d).to_bytes());
+    let mut mirror = good;
+    mirror[32..].copy_from_slice(&(e * d - k).to_bytes());
+    (good, mirror)
+}
